@@ -143,6 +143,11 @@ def run(ctx):
   exponent(ctx)
   statistics(ctx)
   block_contraction(ctx)
+  # R3: which preconditioner the documented update uses - this step's accepted root (replicated) or the previous
+  # refresh (sharded); a rejected / placeholder root must never be applied (gate + sentinel + refresh order)
+  from . import C03, C04
+  C03.run_gate(ctx)
+  C04.ds_step_threading(ctx)
 
 
 def transform_grad(ctx):
